@@ -185,6 +185,7 @@ public:
             }
             throw xercesc::OutOfMemoryException();
         }
+        if (m_logged && size >= 256 && big.size() < 4000) big.push_back(requests);
         void* p = m_logged ? arenaAlloc(size) : malloc(size ? size : 1);
         if (!p) { static const char m[] = "harness: real out of memory\n"; (void)!::write(2, m, sizeof m - 1); _exit(2); }
         const long id = ++nextId;
@@ -218,6 +219,22 @@ public:
     }
 
     size_t outstanding() const { return m_live.size(); }
+    // returned blocks (plain build, not keepFreed) were filled with 0xDD and are never handed out again: a block whose fill is damaged
+    // was written to by the library after it had returned it.  The lowest such block id, 0 if none; n: how many.
+    long touched(long& n) const {
+        long first = 0; n = 0;
+#if !defined(__SANITIZE_ADDRESS__)
+        if (!m_logged || g_keepFreed) return 0;
+        for (auto& kv : m_freed) {
+            auto st = m_size.find(kv.first);
+            const size_t sz = st == m_size.end() ? 0 : st->second;
+            const unsigned char* b = (const unsigned char*)kv.first;
+            for (size_t i = 0; i < sz; ++i) if (b[i] != 0xDD) { ++n; if (!first || kv.second < first) first = kv.second; break; }
+        }
+#endif
+        return first;
+    }
+    std::vector<long> big;                        // ordinals of the requests of >= 256 bytes (blocks of arenas, deques, vectors that grow)
     size_t discard() {                            // the documented recovery model: drop everything still outstanding
         const size_t n = m_live.size();
         for (auto& kv : m_live) { if (m_logged) arenaFree(kv.first, m_size[kv.first]); else free(kv.first); }
@@ -443,8 +460,12 @@ static void runChild(const J& c, bool parentInited, const char* flavour) {
     ch.destroy();
     ch.shutdown();
     flushMem();
+    long ntouched = 0; const long firstTouched = ch.mgr.touched(ntouched);
     const size_t reclaimed = ch.mgr.discard();
-    emit("{\"e\":\"DiscardManager\",\"reclaimed\":" + std::to_string(reclaimed) + ",\"requests\":" + std::to_string(ch.mgr.requests) + "}\n");
+    std::string big;
+    if (k == 0) { big = ",\"big\":["; for (size_t i = 0; i < ch.mgr.big.size(); ++i) big += (i ? "," : "") + std::to_string(ch.mgr.big[i]); big += "]"; }
+    emit("{\"e\":\"DiscardManager\",\"reclaimed\":" + std::to_string(reclaimed) + ",\"requests\":" + std::to_string(ch.mgr.requests) +
+         ",\"touched\":" + std::to_string(ntouched) + ",\"firstTouched\":" + std::to_string(firstTouched) + big + "}\n");
     probe(parentInited);
     emit("{\"e\":\"Done\"}\n");
     _exit(0);
